@@ -97,6 +97,16 @@ from adcgen.indices import Index   # noqa: E402
 out["psi_disjoint"] = not (p1.atoms(Index) & p2.atoms(Index))
 n1, n2 = gs.norm_factor(2), gs.norm_factor(2)
 out["norm_disjoint"] = not (n1.atoms(Index) & n2.atoms(Index))
+# ... and the factors inside one norm factor do not share them either: in
+# a^(4) = -S^(4) + S^(2) S^(2) every index is summed, i.e. occurs exactly twice
+out["norm4_indices_twice"] = True
+for t in Expr(gs.norm_factor(4)).expand().terms:
+    cnt = {}
+    for o in t.objects:
+        for s_ in o.idx:
+            cnt[s_] = cnt.get(s_, 0) + abs(int(o.exponent))
+    if any(c != 2 for c in cnt.values()):
+        out["norm4_indices_twice"] = False
 out["names"] = {"gs_amplitude": tensor_names.gs_amplitude, "eri": tensor_names.eri,
                 "fock": tensor_names.fock}
 print("PROBE-JSON " + json.dumps(out))
